@@ -3,7 +3,7 @@ import importlib, json, os, re
 VERIF = os.path.abspath(os.path.join(os.path.dirname(__file__), ".."))
 
 # properties whose module exists but is not integrated/verified on the clean tree yet (removed one by one)
-PENDING = {"C02", "C04", "C07", "C21", "C31", "C33", "C35", "C40"}
+PENDING = set()
 
 
 def main():
